@@ -488,6 +488,22 @@ def _load_json(
             roots = [
                 _node_from_int(k, bdd, cache)
                 for k in roots]
+        for uid in cache:
+            u = _node_from_int(int(uid), bdd, cache)
+            if u.ref < 2:
+                raise AssertionError(u.ref)
+                # +1 ref due to `incref` in `_make_node`
+                # +1 ref due to the `_node_from_int`
+                #   call for `u`
+            if load_order and u.ref < 3:
+                raise AssertionError(u.ref)
+                # +1 ref due to `incref` in `_make_node`
+                # +1 ref due to either:
+                #   - being a successor node
+                #   - being a root node
+                #     (thus referenced in `roots` above)
+                # +1 ref due to the `_node_from_int`
+                #   call for `u`
     except BaseException:
         # release the references that
         # `_make_node` took for the nodes
@@ -499,20 +515,6 @@ def _load_json(
     # rm refs to cached nodes
     for uid in cache:
         u = _node_from_int(int(uid), bdd, cache)
-        if u.ref < 2:
-            raise AssertionError(u.ref)
-            # +1 ref due to `incref` in `_make_node`
-            # +1 ref due to the `_node_from_int`
-            #   call for `u`
-        if load_order and u.ref < 3:
-            raise AssertionError(u.ref)
-            # +1 ref due to `incref` in `_make_node`
-            # +1 ref due to either:
-            #   - being a successor node
-            #   - being a root node
-            #     (thus referenced in `roots` above)
-            # +1 ref due to the `_node_from_int`
-            #   call for `u`
         bdd.decref(u, _direct=True)
             # this module is unusual,
             # in that `incref` and `decref` need
